@@ -5,18 +5,17 @@
 //! decoder from every public entry point, in isolated worker processes.
 
 use std::cell::Cell;
-use std::collections::{BTreeMap, HashSet};
+use std::collections::BTreeMap;
 use std::fs::File;
 use std::io::{BufRead, Read, Seek, SeekFrom};
 use std::os::unix::fs::FileExt;
-use std::sync::Mutex;
 use std::time::Duration;
 
 use rten_onnx::onnx::{ModelProto, is_onnx_model};
 use rten_onnx::protobuf::{DecodeMessage, ErrorKind, ProtobufError, ReadPos, ValueReader};
 use vp_core::{Ctx, Json, json};
 
-use crate::drv::{self, Batch, DrvConfig, Fault, FaultKind, PanicInfo, VioBook, hex, unhex};
+use crate::drv::{self, Batch, DrvConfig, Fault, FaultKind, PanicInfo, hex, unhex};
 use crate::gens::{self, FaultPlan, InputSet, Item, SetKind, tag, vi};
 use crate::pbref::{self, Mt, Overlong};
 use crate::seeds;
@@ -89,7 +88,7 @@ fn single_field_box(thorough: bool) -> Vec<Item> {
             for f in 1..=16u64 {
                 // LEN field with extreme length
                 for payload in payloads.iter().copied() {
-                    for l in gens::len_extremes(payload.len() as u64) {
+                    for l in gens::len_extremes(payload.len() as u64, thorough) {
                         let mut inner = tag(f, 2);
                         inner.extend(vi(l));
                         inner.extend_from_slice(payload);
@@ -682,7 +681,7 @@ pub fn worker() -> ! {
                 eval(&mut ws, &bytes, 0, mask, force_real, prog, &mut acc, false);
                 acc.to_json()
             };
-            return drv::supervised_answer(&sup, 0, 0, 1, case_timeout, &mut body);
+            return drv::supervised_answer(&sup, 0, 0, 1, case_timeout, &|_| false, &mut body);
         }
         let thorough = req["thorough"].as_bool().unwrap_or(false);
         let set = req["set"].as_u64().unwrap_or(0) as usize;
@@ -702,7 +701,20 @@ pub fn worker() -> ! {
             }
             acc.to_json()
         };
-        drv::supervised_answer(&sup, set, start, end.min(spec.set.len()), case_timeout, &mut body)
+        // performance hint: cases that will probably kill their process get a child of their own
+        let risky = |idx: u64| -> bool {
+            if !want_hash {
+                return false; // exhaustive short-string sets: nothing in them can allocate much
+            }
+            let mut b = Vec::new();
+            spec.set.fill(idx, &mut b);
+            let w = pbref::walk(&b, Mt::Model);
+            match w.must_err() {
+                Some(o) => (o.kind == "string" || o.kind == "bytes") && o.declared >= (1 << 33) && o.declared < (1 << 63),
+                None => w.max_depth > 2000,
+            }
+        };
+        drv::supervised_answer(&sup, set, start, end.min(spec.set.len()), case_timeout, &risky, &mut body)
     })
 }
 
@@ -990,7 +1002,7 @@ fn replay(ctx: Ctx, path: &std::path::Path) -> ! {
             other => vp_core::machinery_error(&format!("replay: supervisor failure {other:?}")),
         }
     };
-    let mut report = |a: &Json| {
+    let report = |a: &Json| {
         if let Some(vs) = a["vio"].as_array() {
             for v in vs {
                 ctx.violation(v["sig"].as_str().unwrap_or("?"), case_json.clone(), v["detail"].as_str().unwrap_or(""));
